@@ -120,5 +120,128 @@ theorem push_tie (u : Gen.SessionRx.Uplink) (full : Bool) (cmd : Gen.SessionMacs
     · simp [hc, hfl, hp, hq]
   · simp [hfl, hp, hq]
 
+/-! ## one command of the stream that is not a LinkADRReq -/
+
+/-- the model's handling of one command outside a LinkADR block (`handleCmds`, one arm) -/
+def stepModel (snr : Int) : Nat × List Nat → MacCtx → M MacCtx
+  | (0x06, _), c => pure (c.push 0x06 [255, devStatusMargin snr])
+  | (0x08, p), c => do
+    let d ← delToDelayMs ((← byteAt p 0) % 16)
+    pure ({ c with cfg := { c.cfg with rx1Delay := d } }.push 0x08 [])
+  | (0x05, p), c => do
+    let (ans, cfg) := rxParamSetup c.cfg c.region.id (← byteAt p 0) (← freq24 p 1)
+    pure ({ c with cfg := cfg }.push 0x05 [ans])
+  | (0x07, p), c =>
+    if c.region.id.isFixed then pure c
+    else do
+      let idx ← byteAt p 0
+      let f ← freq24 p 1
+      let r ← byteAt p 4
+      let drr : Option Nat := if r / 16 < r % 16 then none else some r
+      let ((ackF, ackD), region) ← handleNewChannel c.region idx f drr
+      pure ({ c with region := region }.push 0x07 [(if ackF then 1 else 0) + (if ackD then 2 else 0)])
+  | (0x0A, p), c =>
+    if c.region.id.isFixed then pure c
+    else do
+      let idx ← byteAt p 0
+      let f ← freq24 p 1
+      let ((ackF, ackC), region) ← channelDlUpdate c.region idx f
+      pure ({ c with region := region }.push 0x0A [(if ackF then 1 else 0) + (if ackC then 2 else 0)])
+  | (_, _), c => pure c
+
+/-- `handleCmds` on a command that is not a LinkADRReq: that arm, then the rest with the block state untouched -/
+theorem handleCmds_cons (snr : Int) (x : Nat × List Nat) (rest : List (Nat × List Nat)) (c : MacCtx) (mask : Mask) (rfu : Bool)
+    (n : Nat) (hx : WfCmd x) (h3 : x.1 ≠ 3) :
+    handleCmds snr (x :: rest) c mask rfu n = (stepModel snr x c).bind fun c' => handleCmds snr rest c' mask rfu n := by
+  obtain ⟨cid, p⟩ := x
+  obtain ⟨hl, _⟩ := hx
+  simp only at hl h3
+  have hc : cid = 2 ∨ cid = 4 ∨ cid = 5 ∨ cid = 6 ∨ cid = 7 ∨ cid = 8 ∨ cid = 9 ∨ cid = 10 ∨ cid = 13 := by
+    unfold downlinkCmdLen at hl
+    split at hl <;> simp_all
+  rcases hc with h | h | h | h | h | h | h | h | h <;> subst h
+  · simp [handleCmds, stepModel, Except.bind, pure, Except.pure]
+  · simp [handleCmds, stepModel, Except.bind, pure, Except.pure]
+  · simp only [handleCmds, stepModel, bind, Except.bind, pure, Except.pure]
+    cases byteAt p 0 <;> simp only []
+    cases freq24 p 1 <;> simp only []
+  · simp [handleCmds, stepModel, Except.bind, pure, Except.pure]
+  · simp only [handleCmds, stepModel, bind, Except.bind, pure, Except.pure]
+    cases c.region.id.isFixed <;> simp only [Bool.false_eq_true, if_false, if_true]
+    cases byteAt p 0 <;> simp only []
+    cases freq24 p 1 <;> simp only []
+    cases byteAt p 4 <;> simp only []
+    rename_i a b d
+    cases handleNewChannel c.region a b (if d / 16 < d % 16 then none else some d) <;> simp only []
+  · simp only [handleCmds, stepModel, bind, Except.bind, pure, Except.pure]
+    cases byteAt p 0 <;> simp only []
+    rename_i a
+    cases delToDelayMs (a % 16) <;> simp only []
+  · simp [handleCmds, stepModel, Except.bind, pure, Except.pure]
+  · simp only [handleCmds, stepModel, bind, Except.bind, pure, Except.pure]
+    cases c.region.id.isFixed <;> simp only [Bool.false_eq_true, if_false, if_true]
+    cases byteAt p 0 <;> simp only []
+    cases freq24 p 1 <;> simp only []
+    rename_i a b
+    cases channelDlUpdate c.region a b <;> simp only []
+  · simp [handleCmds, stepModel, Except.bind, pure, Except.pure]
+
+/-- what one iteration of the generated loop must do for a command that is not a LinkADRReq: the model's arm on
+the context, the LinkADR block state (working mask, counter, RFU flag) untouched, nothing of the session
+touched but the answer queue, a panic on one side iff on the other -/
+def StepTie (snr : Int) (x : Nat × List Nat) : Prop :=
+  ∀ (gs : Gen.SessionRx.Session) (g : Gen.SessionRx.Configuration) (rs : RegionState) (full : Bool)
+    (cm : Gen.SessionMacs.ChannelMask) (n : Int) (rfu : Bool) (peek : Option Gen.SessionMacs.DownlinkMacCommand) (c : MacCtx),
+    Rel gs g full c → c.region = rs → gs.uplink.pending.length ≤ 15 →
+    match stepModel snr x c with
+    | .error _ => Gen.SessionMacs.Session.handle_downlink_macs.while_step snr gs g rs full cm n rfu (decCmd x) peek = none
+    | .ok c' => ∃ pend' g', Gen.SessionMacs.Session.handle_downlink_macs.while_step snr gs g rs full cm n rfu (decCmd x) peek
+          = some ({ gs with uplink := { gs.uplink with pending := pend' } }, g', c'.region, c'.full, cm, n, rfu) ∧
+        c'.pending = Rx.natsOf pend' ∧ c'.cfg = Rx.cfgOf g' ∧ pend'.length ≤ 15
+
+/-- the margin byte the creator ends with, for every `snr` -/
+theorem set_margin_eq (snr : Int) (b : Int) :
+    ∃ r, Gen.SessionMacs.DevStatusAnsCreator.set_margin ⟨b, 0⟩ snr = some (r, ⟨b, (devStatusMargin snr : Int)⟩) := by
+  unfold Gen.SessionMacs.DevStatusAnsCreator.set_margin
+  by_cases h : -32 ≤ snr ∧ snr ≤ 31
+  · have := (C08.tieA_devStatusMargin snr (by omega)).1
+    rw [this, if_pos h]
+    exact ⟨_, rfl⟩
+  · have hb : Gen.UplinkStatic.DevStatusAnsCreator.set_margin.byte snr = some none := by
+      unfold Gen.UplinkStatic.DevStatusAnsCreator.set_margin.byte
+      simp [h]
+    have hz : devStatusMargin snr = 0 := by simp [devStatusMargin, h]
+    rw [hb, hz]
+    exact ⟨_, rfl⟩
+
+/-- DevStatusReq: `DevStatusAns(255, margin)` is pushed -/
+theorem tieA_step_dev_status (snr : Int) (p : List Nat) : StepTie snr (0x06, p) := by
+  intro gs g rs full cm n rfu peek c hrel hreg hq
+  obtain ⟨r, hm⟩ := set_margin_eq snr 255
+  simp only [stepModel, pure, Except.pure]
+  unfold Gen.SessionMacs.Session.handle_downlink_macs.while_step
+  simp only [decCmd, Gen.SessionMacs.DevStatusAnsCreator.new, Gen.SessionMacs.DevStatusAnsCreator.set_battery, hm,
+    Option.bind_eq_bind, Option.bind_some]
+  obtain ⟨u', h1, h2, h3, h4, h5, h6⟩ := push_tie gs.uplink full
+    (⟨0x06, [255, (devStatusMargin snr : Int)], 2⟩ : Gen.SessionMacs.SerializableMacCommand) rfl hq (by simp) c hrel.pending hrel.full
+  have e : Rx.natsOf [255, (devStatusMargin snr : Int)] = [255, devStatusMargin snr] := by simp [Rx.natsOf]
+  simp only [e, show ((6 : Int).toNat) = 6 from rfl] at h1 h2 h5 h6
+  refine ⟨u'.pending, g, ?_, h2, by rw [h5]; exact hrel.cfg, h4⟩
+  show (Gen.SessionMacs.push_answer gs.uplink full ⟨0x06, [255, (devStatusMargin snr : Int)], 2⟩).bind _ = _
+  rw [h1]
+  simp only [Option.bind_some, Option.pure_def, h6, hreg]
+  congr
+  cases u'; simp_all
+
+/-- commands the device ignores (LinkCheckAns, DutyCycleReq, TXParamSetupReq, DeviceTimeAns): nothing changes -/
+theorem tieA_step_ignored (snr : Int) (cid : Nat) (p : List Nat) (h : cid = 2 ∨ cid = 4 ∨ cid = 9 ∨ cid = 13) :
+    StepTie snr (cid, p) := by
+  intro gs g rs full cm n rfu peek c hrel hreg hq
+  rcases h with h | h | h | h <;> subst h <;>
+  · simp only [stepModel, pure, Except.pure]
+    unfold Gen.SessionMacs.Session.handle_downlink_macs.while_step
+    simp only [decCmd]
+    exact ⟨gs.uplink.pending, g, by rw [hreg, hrel.full]; rfl, hrel.pending, hrel.cfg, hq⟩
+
 #print axioms push_tie
 end TieA.Macs
